@@ -44,6 +44,7 @@ Fixpoint expandtabs_from (col : nat) (s : chars) : chars :=
     if Nat.eqb (code c) 9 then
       let k := 8 - Nat.modulo col 8 in repeat " "%char k ++ expandtabs_from (col + k) r
     else if orb (Nat.eqb (code c) 10) (Nat.eqb (code c) 13) then c :: expandtabs_from 0 r
+    else if andb (Nat.leb 128 (code c)) (Nat.leb (code c) 191) then c :: expandtabs_from col r   (* UTF-8 continuation byte: same column *)
     else c :: expandtabs_from (S col) r
   end.
 Definition expandtabs (s : chars) : chars := expandtabs_from 0 s.
